@@ -149,7 +149,8 @@ def generate_triples(rows, values, representative=False, shapemap=False):
             seen[(p, tgt)] = j + 1
             tagj = "%s%s%d" % (p, "".join(str(x) for x in tgt), j)
             if kind == "lit":
-                o = ("lit", DT[tgt[1]], "v%d" % j if tgt[1] != "int" else str(j + 1))
+                # lexical forms are unique per (node, property slot): examples can be attributed to the node they came from
+                o = ("lit", DT[tgt[1]], "v%d_%s_%d" % (j, row.rid, i) if tgt[1] != "int" else str(j + 1 + 10 * i + 1000 * (ord(row.rid[0]) - 96)))
             elif kind == "iri":
                 o = ("iri", "%sv/%s_%d_%s" % (EX, row.rid, i, tagj))
             elif kind == "bnode":
